@@ -10,7 +10,10 @@ A *case* is
                            before=[op, ...], after=[op, ...])})   application configuration
 a *request* is
     dict(app=app id, rid=route id, method, qs, cookie, hdrs={name: value}, body=str, ctype=str|None,
-         kind='handler'|'notfound'|'notallowed'|'badpath', ops=[op, ...], out=outcome)
+         kind='handler'|'notfound'|'notallowed'|'badpath', ops=[op, ...], out=outcome,
+         chunks=[sizes] (the body travels chunked, chunk sizes cycling through the list),
+         parts=[(name, filename|None, content type|None, {extra part header: value}, data)], boundary=str
+               (the body is multipart/form-data built from the parts))
 Everything a request carries is a function of the request (never of the worker thread), so that a
 difference between two runs can only come from the code under test.
 
@@ -144,14 +147,63 @@ def req_path(req):
     return '/r%d' % req['rid']
 
 
+def payload(req):
+    """the body before transfer coding: given, or multipart/form-data built from the parts"""
+    if req.get('parts'):
+        out = []
+        for name, filename, ctype, extra, data in req['parts']:
+            out.append('--' + req['boundary'])
+            disp = 'Content-Disposition: form-data; name="%s"' % name
+            if filename is not None:
+                disp += '; filename="%s"' % filename
+            out.append(disp)
+            if ctype is not None:
+                out.append('Content-Type: ' + ctype)
+            for k, v in extra.items():
+                out.append('%s: %s' % (k, v))
+            out.append('')
+            out.append(data)
+        out.append('--' + req['boundary'] + '--')
+        out.append('')
+        return '\r\n'.join(out)
+    return req.get('body', '')
+
+
+def wire_body(req):
+    data = payload(req).encode('latin1')
+    sizes = req.get('chunks')
+    if not sizes:
+        return data
+    out, i, k = [], 0, 0
+    while i < len(data):
+        n = max(1, sizes[k % len(sizes)])
+        part = data[i:i + n]
+        # every request spells its chunk sizes differently (digits, case, an extension)
+        out.append(('%x' % len(part)).encode() + (b';e=%d' % k if k % 2 else b'') + b'\r\n' + part + b'\r\n')
+        i += n
+        k += 1
+    out.append(b'0\r\n\r\n')
+    return b''.join(out)
+
+
+def content_type(req):
+    if req.get('parts'):
+        return 'multipart/form-data; boundary=' + req['boundary']
+    return req.get('ctype')
+
+
 def wsgi_env(req):
     """the environ a server would hand over; a fresh dict and fresh streams on every call"""
-    body = req.get('body', '').encode('latin1')
+    body = wire_body(req)
     env = {'REQUEST_METHOD': req['method'], 'PATH_INFO': req_path(req), 'QUERY_STRING': req.get('qs', ''),
            'SERVER_NAME': 'h', 'SERVER_PORT': '80', 'wsgi.url_scheme': 'http', 'SERVER_PROTOCOL': 'HTTP/1.1',
-           'wsgi.input': io.BytesIO(body), 'wsgi.errors': io.StringIO(), 'CONTENT_LENGTH': str(len(body))}
-    if req.get('ctype') is not None:
-        env['CONTENT_TYPE'] = req['ctype']
+           'wsgi.input': io.BytesIO(body), 'wsgi.errors': io.StringIO()}
+    if req.get('chunks'):
+        env['HTTP_TRANSFER_ENCODING'] = 'chunked'
+    else:
+        env['CONTENT_LENGTH'] = str(len(body))
+    if content_type(req) is not None:
+        env['CONTENT_TYPE'] = content_type(req)
     if req.get('cookie'):
         env['HTTP_COOKIE'] = req['cookie']
     for k, v in (req.get('hdrs') or {}).items():
@@ -172,10 +224,21 @@ def model_env(req):
         d['#q:' + k] = v
     for k, v in simple_pairs(req.get('cookie') or '', ';').items():
         d['#c:' + k] = v
-    if (req.get('ctype') or '').startswith('application/x-www-form-urlencoded'):
+    if req.get('parts'):
+        for name, filename, ctype, extra, data in req['parts']:
+            if filename is None:
+                d.setdefault('#f:' + name, data)
+            else:
+                d['#file:%s:filename' % name] = filename
+                d['#file:%s:data' % name] = data
+                if ctype is not None:
+                    d['#file:%s:ctype' % name] = ctype
+                for k, v in extra.items():
+                    d['#file:%s:hdr:%s' % (name, k)] = v
+    elif (req.get('ctype') or '').startswith('application/x-www-form-urlencoded'):
         for k, v in simple_pairs(req.get('body', ''), '&').items():
             d['#f:' + k] = v
-    d['#body'] = req.get('body', '')
+    d['#body'] = payload(req)
     d['#url'] = 'http://h' + urllib.parse.quote(req_path(req)) + ('?' + qs if qs else '')
     return d
 
@@ -227,6 +290,8 @@ def enc_op(op, cfgs=None):
         return [k]
     if k in ('query', 'cookie', 'envget', 'form', 'rdhdr', 'ctype'):
         return [k, hs(op[1])]
+    if k == 'file':
+        return [k, hs(op[1]), hs(op[2])]
     if k == 'header':
         return [k, hs(op[1]), hs('HTTP_' + op[1].upper().replace('-', '_'))]
     if k == 'status':
@@ -273,7 +338,7 @@ def enc_out(out):
 
 CRASH_REPR = "ZeroDivisionError('integer division or modulo by zero')"
 NO_CFG = dict(debug=False, custom=[], before=[], after=[])
-MEMFILE_MAX = 32          # max_memfile_size of every application the harness configures
+MEMFILE_MAX = 512         # max_memfile_size of every application the harness configures
 
 
 def enc_req(req, cfgs=None):
@@ -423,7 +488,7 @@ class World:
         if tids != list(range(1, len(tids) + 1)):
             raise ValueError('thread ids must be 1..n')
         workers = [(lambda me, items=case['threads'][t]: self.run_items(me, items)) for t in tids]
-        r = sched.Run(workers, case.get('switches', ()), repo=repo, handler_codes=[h_script.__code__, run_ops.__code__, h_error.__code__, h_hook.__code__],
+        r = sched.Run(workers, case.get('switches', ()), repo=repo, handler_codes=[h_script.__code__, run_ops.__code__, h_error.__code__, h_hook.__code__, upload_field.__code__],
                       registry=self.reg, timeout=timeout, label_only=label_only)
         r.run()
         self.sched = r
@@ -466,6 +531,8 @@ def run_ops(world, app_id, ops, copies):
             obs.append((app_id, 'r:' + show(rq.body.read())))
         elif k == 'form':
             obs.append((app_id, 'r:' + show(rq.forms.get(op[1]))))
+        elif k == 'file':
+            obs.append((app_id, 'r:' + show(upload_field(rq.files.get(op[1]), op[2]))))
         elif k == 'url':
             obs.append((app_id, 'r:' + show(rq.url)))
         elif k == 'status':
@@ -498,6 +565,24 @@ def run_ops(world, app_id, ops, copies):
             world.construct(op[1])
         else:
             raise ValueError(op)
+
+
+def upload_field(u, field):
+    """one attribute of a FileUpload (None when there is no such upload)"""
+    if u is None:
+        return None
+    if field == 'filename':
+        return u.filename
+    if field == 'data':
+        u.file.seek(0)
+        return u.file.read()
+    if field == 'ctype':
+        v = u.content_type
+        return getattr(v, 'value', v) or None
+    if field.startswith('hdr:'):
+        v = u.headers.get(field[4:])
+        return getattr(v, 'value', v)
+    raise ValueError(field)
 
 
 def h_script(world, app_id, req):
